@@ -65,9 +65,19 @@ def Facts.round1 : Facts :=
     workerTimeoutSetsFlag := true, syncTimeoutSetsFlag := true,
     shutdown := [.purgeAll, .bufClose, .walClose] }
 
-/-- the current tree: a queue-full drop raises the flag and, without a WAL, is reported to the client -/
-def Facts.current : Facts :=
+/-- the tree after repairs B and C and before 945541f: the flag branch of the tick still age-purged first -/
+def Facts.pre945 : Facts :=
   { tickFlag := [.purge, .replay, .reset], tickElse := [.purge],
+    queueFullSetsFlag := true, queueFullErrors := true, queueFullErrorsOnlyNoWal := true,
+    typedQueueFullErrors := true, typedQueueFullErrorsOnlyNoWal := true,
+    workerFailSetsFlag := true, syncFailSetsFlag := true,
+    workerTimeoutSetsFlag := true, syncTimeoutSetsFlag := true,
+    shutdown := [.purgeAll, .bufClose, .walClose] }
+
+/-- the current tree: a queue-full drop raises the flag and, without a WAL, is reported to the client; while
+a flush failure is pending the tick replays without an age purge (945541f) -/
+def Facts.current : Facts :=
+  { tickFlag := [.replay, .reset], tickElse := [.purge],
     queueFullSetsFlag := true, queueFullErrors := true, queueFullErrorsOnlyNoWal := true,
     typedQueueFullErrors := true, typedQueueFullErrorsOnlyNoWal := true,
     workerFailSetsFlag := true, syncFailSetsFlag := true,
